@@ -1,6 +1,7 @@
 import ClusterVerif.Lemmas.C01
 import ClusterVerif.Lemmas.C01Commit
 import ClusterVerif.Gen.C01Commit
+import ClusterVerif.Model.C01Gate
 
 /-!
 # C01 — Raft: every replica's pinset equals the committed pin/unpin sequence
@@ -232,23 +233,73 @@ theorem no_other_calls (ops : List Op) (r : Replica) (src : Option Snap) (e : Ev
 
 /-! ### order of arrival at the tracker -/
 
-/-- the full statement: whatever order the asynchronous calls arrive in, every cid sees its
-    instructions in commit order -/
-def handoff_order_full : Prop :=
-  ∀ (dispatched arrived : List Call), arrivalAllowed dispatched arrived = true →
+/-- the tracker is called synchronously: what arrives is what was dispatched, in that order -/
+theorem sync_arrival_exact (dispatched arrived : List Call) (h : arrivalAllowed dispatched arrived = true) :
+    arrived = dispatched := by
+  unfold arrivalAllowed at h
+  exact eq_of_beq h
+
+/-- Full strength (2ba6875): for every committed sequence and EVERY schedule of events on any peers, over
+    any stretch `evs₂` in which peer `i` is not restarted and has no snapshot installed (one incarnation
+    of its tracker, fed by the log alone — `evs₁` is arbitrary and may end in either), the tracker of peer
+    `i` receives exactly the Track / Untrack calls of the entries its Raft applied meanwhile, each once,
+    in log order; whatever order of arrival the dispatch allows is that one. -/
+theorem handoff_order (ops : List Op) (n : Nat) (evs₁ evs₂ : List (Nat × Ev)) (i : Nat) (hdec : allDecodable ops)
+    (hq : noReset i evs₂ = true) (r : Replica) (hr : (run ops (initSys n) evs₁)[i]? = some r) :
+    ∃ r', (run ops (initSys n) (evs₁ ++ evs₂))[i]? = some r' ∧ r.applied ≤ r'.applied ∧
+      callsAt ops i (run ops (initSys n) evs₁) evs₂ = sentFor ops r.applied (r'.applied - r.applied) ∧
+      (∀ arrived, arrivalAllowed (callsAt ops i (run ops (initSys n) evs₁) evs₂) arrived = true →
+        arrived = sentFor ops r.applied (r'.applied - r.applied) ∧
+        ∀ c, perCid c arrived = perCid c (sentFor ops r.applied (r'.applied - r.applied))) := by
+  have hs := run_inv (x := false) hdec evs₁ (sinv_init false ops n) (by intro h; cases h)
+  obtain ⟨k, r', h1, h2, h3⟩ := callsAt_spec hdec i evs₂ hs hq hr
+  have hk : r'.applied - r.applied = k := by omega
+  refine ⟨r', by rw [run_append]; exact h1, by omega, by rw [hk]; exact h3, ?_⟩
+  intro arrived harr
+  have := sync_arrival_exact _ _ harr
+  rw [hk, this, h3]
+  exact ⟨rfl, fun _ => rfl⟩
+
+example : callsAt [Op.pin (pinCid 1), .unpin (pinCid 1), .pin (pinCid 2)] 0 (initSys 2)
+    [(0, .apply), (1, .apply), (0, .snapBegin), (0, .apply), (0, .snapPersist), (1, .apply), (0, .apply), (0, .kill)] =
+    [.track (pinCid 1), .untrack (pinCid 1), .track (pinCid 2)] := by decide
+
+/-- an observation of entries applied back to back whose calls arrived as the model says satisfies the
+    `tracker` and `tracker_order` clauses of the Spec -/
+theorem burst_obs_holds (ops : List Op) (i a k : Nat) (res : Res) (v : View) :
+    let o : Obs := { rep := i, ev := .restart, res := res, applied := a + k, view := v,
+                     calls := sentFor ops a k, burst := true, first := a }
+    trackerOk ops o = true ∧ trackerOrderOk ops o = true := by
+  have hsent : sentIn ops { rep := i, ev := .restart, res := res, applied := a + k, view := v,
+                            calls := sentFor ops a k, burst := true, first := a } = sentFor ops a k := by
+    unfold sentIn sentFor
+    simp
+  refine ⟨?_, ?_⟩
+  · unfold trackerOk
+    simp only [if_true, hsent]
+    exact List.isPerm_iff.2 (List.Perm.refl _)
+  · unfold trackerOrderOk
+    simp only [Bool.not_true, Bool.false_or, hsent]
+    simp
+
+/-- the refuted alternative — the dispatch before 2ba6875 (`GoContext`, not awaited): whatever order the
+    asynchronous calls arrive in, every cid sees its instructions in commit order -/
+def async_handoff_order_full : Prop :=
+  ∀ (dispatched arrived : List Call), arrivalAllowedAsync dispatched arrived = true →
     ∀ c, perCid c arrived = perCid c dispatched
 
-/-- false: pin c then unpin c applied back to back may arrive as Untrack, Track (known finding K29) -/
-theorem handoff_order_fails : ¬ handoff_order_full := by
+/-- false: pin c then unpin c applied back to back could arrive as Untrack, Track (was K29; the reverse
+    patch of 2ba6875 is reported as a violation with exactly this history) -/
+theorem async_handoff_order_fails : ¬ async_handoff_order_full := by
   intro h
   exact absurd (h [.track (pinCid 1), .untrack (pinCid 1)] [.untrack (pinCid 1), .track (pinCid 1)] (by decide) 1)
     (by decide)
 
-/-- true when no two entries in flight together concern the same cid -/
-theorem handoff_order_partial (dispatched arrived : List Call) (h : arrivalAllowed dispatched arrived = true)
+/-- it held only when no two entries in flight together concerned the same cid -/
+theorem async_handoff_order_partial (dispatched arrived : List Call) (h : arrivalAllowedAsync dispatched arrived = true)
     (hn : (dispatched.map Call.cid).Nodup) : ∀ c, perCid c arrived = perCid c dispatched := by
   intro c
-  unfold arrivalAllowed at h
+  unfold arrivalAllowedAsync at h
   exact perCid_of_perm (List.isPerm_iff.1 h) hn c
 
 /-! ### the Spec clauses on the model's own observations -/
@@ -290,6 +341,11 @@ theorem extracted_shapes :
     Gen.redirectShape = expectedRedir ∧ Gen.commitShape = expectedOuter ∧
     Gen.addPeerShape = expectedOuter ∧ Gen.rmPeerShape = expectedOuter ∧
     Gen.facts.all (·.2) = true := by decide
+
+/-- the decodability gate of `commit` stands where the model has it: one unconditional
+    `if err := checkDecodable(op); err != nil { return <error> }` on the operation handed to `CommitOp`,
+    before the retry loop; LogPin and LogUnpin both go through it and return its error -/
+theorem extracted_gate : Gen.gateShape = expectedGate := by decide
 
 /-- LogPin / LogUnpin return nil only if some attempt really committed the operation: the last attempt
     it went through was a successful local apply or a forward the leader executed, and no earlier one was
@@ -352,6 +408,84 @@ example : commit Gen.redirectShape Gen.commitShape 1 [.fwdErr, .fwdOk] =
 example : commit Gen.redirectShape Gen.commitShape 1 [.fwdErr, .selfApplyErr, .fwdErr, .selfApplyOk] =
     { err := false, consumed := [.fwdErr, .selfApplyErr, .fwdErr, .selfApplyOk] } := by decide
 
+/-! #### the decodability gate (3d753d4) -/
+
+/-- an operation that cannot be read back from its msgpack form (origins, undefined cid or reference) is
+    answered with an error before anything is attempted: no leader is asked, nothing is forwarded,
+    nothing reaches the log -/
+theorem undecodable_refused_no_attempt (retries : Nat) (oracle : List Outcome) :
+    commitOp Gen.gateShape Gen.redirectShape Gen.commitShape retries false oracle =
+      { err := true, consumed := [] } := by
+  rw [extracted_gate]
+  rfl
+
+/-- for an operation that can be decoded the gate is invisible: every theorem about `commit` above is a
+    statement about LogPin / LogUnpin of such an operation -/
+theorem gate_transparent (retries : Nat) (oracle : List Outcome) :
+    commitOp Gen.gateShape Gen.redirectShape Gen.commitShape retries true oracle =
+      commit Gen.redirectShape Gen.commitShape retries oracle := by
+  rw [extracted_gate]
+  rfl
+
+/-- LogPin / LogUnpin return nil only for an operation every replica can decode, and only if the last
+    attempt the call went through really committed it (and no earlier one did) -/
+theorem ack_implies_decodable (retries : Nat) (decodable : Bool) (oracle : List Outcome)
+    (h : (commitOp Gen.gateShape Gen.redirectShape Gen.commitShape retries decodable oracle).err = false) :
+    decodable = true ∧
+    ∃ p s, (commitOp Gen.gateShape Gen.redirectShape Gen.commitShape retries decodable oracle).consumed = p ++ [s] ∧
+      s.success = true ∧ ∀ x ∈ p, x.success = false := by
+  cases decodable with
+  | false => rw [undecodable_refused_no_attempt] at h; cases h
+  | true =>
+    rw [gate_transparent] at h ⊢
+    exact ⟨rfl, ack_implies_some_attempt_committed retries oracle h⟩
+
+/-- an operation reaches the log (some attempt committed it) only if it can be decoded, and exactly when
+    the call is acknowledged -/
+theorem committed_iff_acknowledged (retries : Nat) (decodable : Bool) (oracle : List Outcome) :
+    ((commitOp Gen.gateShape Gen.redirectShape Gen.commitShape retries decodable oracle).consumed.any (·.success) = true ↔
+      (commitOp Gen.gateShape Gen.redirectShape Gen.commitShape retries decodable oracle).err = false) := by
+  cases decodable with
+  | false => rw [undecodable_refused_no_attempt]; simp
+  | true =>
+    rw [gate_transparent]
+    constructor
+    · intro hany
+      cases herr : (commit Gen.redirectShape Gen.commitShape retries oracle).err with
+      | false => rfl
+      | true =>
+        obtain ⟨x, hx, hs⟩ := List.any_eq_true.1 hany
+        have := (all_fail_reports_error retries oracle).1 herr x hx
+        rw [this] at hs; cases hs
+    · intro herr
+      obtain ⟨p, s, hp, hs, _⟩ := ack_implies_some_attempt_committed retries oracle herr
+      rw [hp]
+      simp [hs]
+
+example : commitOp Gen.gateShape Gen.redirectShape Gen.commitShape 1 false [.fwdOk] = { err := true, consumed := [] } := by decide
+example : commitOp Gen.gateShape Gen.redirectShape Gen.commitShape 1 true [.fwdErr, .fwdOk] =
+    { err := false, consumed := [.fwdErr, .fwdOk] } := by decide
+
+/-- why the gate matters (the code before 3d753d4): without it an operation no replica can decode is
+    committed and acknowledged -/
+theorem ungated_acks_undecodable :
+    ∃ retries oracle, (commitOp { expectedGate with pos := .absent } expectedRedir expectedOuter retries false oracle).err = false ∧
+      (commitOp { expectedGate with pos := .absent } expectedRedir expectedOuter retries false oracle).consumed.any (·.success) = true :=
+  ⟨1, [.selfApplyOk], by decide⟩
+
+/-- … and so it is when the result of the check is not returned -/
+theorem ignored_gate_acks_undecodable :
+    ∃ retries oracle, (commitOp { expectedGate with errReturned := false } expectedRedir expectedOuter retries false oracle).err = false ∧
+      (commitOp { expectedGate with errReturned := false } expectedRedir expectedOuter retries false oracle).consumed.any (·.success) = true :=
+  ⟨1, [.selfApplyOk], by decide⟩
+
+/-- why its place matters: checked after the loop, the operation is answered with an error and yet sits
+    in the log of every peer -/
+theorem late_gate_commits_what_it_refuses :
+    ∃ retries oracle, (commitOp { expectedGate with pos := .afterLoop } expectedRedir expectedOuter retries false oracle).err = true ∧
+      (commitOp { expectedGate with pos := .afterLoop } expectedRedir expectedOuter retries false oracle).consumed.any (·.success) = true :=
+  ⟨1, [.selfApplyOk], by decide⟩
+
 /-- why the assignment matters: were the RPC result declared (`:=`) instead of assigned, a call whose
     forwards all fail would be acknowledged although nothing was committed -/
 theorem shadowed_forward_acks_uncommitted :
@@ -361,3 +495,171 @@ theorem shadowed_forward_acks_uncommitted :
   ⟨1, [.fwdErr, .fwdErr], by decide⟩
 
 end CV.C01.Commit
+
+/-! ### acknowledged histories: what reaches the log has passed the gate
+
+`logAfter` (`Model/C01Gate.lean`) is the Raft log a sequence of LogPin / LogUnpin calls leaves behind, each
+call with its own oracle of attempt outcomes. With the gate of 3d753d4 every entry of it can be decoded, so
+the hypothesis `allDecodable` of the `_partial` theorems above is discharged for every history that comes
+through the commit path: the statements below have no hypothesis left. The FSM's behaviour on an entry it
+cannot decode (`caught_up_exact_fails`, the `poisoned` branch of `stepR`) remains a fact about raw log
+entries; it is not reachable through `commit` (`gated_never_inconsistent`). -/
+namespace CV.C01
+open CV CV.C01.Commit
+
+/-- the log a history of submissions leaves behind, with the skeleton extracted from today's source -/
+abbrev gatedLog (retries : Nat) (subs : List Submission) : List Op :=
+  logAfter Gen.gateShape Gen.redirectShape Gen.commitShape retries subs
+
+/-- every entry of the log was submitted by a call that was acknowledged, and can be decoded -/
+theorem logged_was_acknowledged (retries : Nat) (subs : List Submission) :
+    ∀ o ∈ gatedLog retries subs, ∃ s ∈ subs, s.op = o ∧
+      (answerOf Gen.gateShape Gen.redirectShape Gen.commitShape retries s).err = false ∧ o.decodable = true := by
+  induction subs with
+  | nil => intro o ho; cases ho
+  | cons s rest ih =>
+    intro o ho
+    unfold gatedLog logAfter at ho
+    rcases List.mem_append.1 ho with h | h
+    · by_cases hc : (answerOf Gen.gateShape Gen.redirectShape Gen.commitShape retries s).committed = true
+      · rw [if_pos hc] at h
+        have ho' : o = s.op := by simpa using h
+        have herr := (committed_iff_acknowledged retries s.op.decodable s.oracle).1 hc
+        exact ⟨s, List.mem_cons_self, ho'.symm, herr, by rw [ho']; exact (ack_implies_decodable retries _ _ herr).1⟩
+      · rw [if_neg hc] at h; cases h
+    · obtain ⟨s', hs', h1, h2, h3⟩ := ih o h
+      exact ⟨s', List.mem_cons_of_mem _ hs', h1, h2, h3⟩
+
+/-- the committed sequence contains no entry a replica cannot decode -/
+theorem gated_log_decodable (retries : Nat) (subs : List Submission) : allDecodable (gatedLog retries subs) := by
+  intro o ho
+  obtain ⟨_, _, _, _, h⟩ := logged_was_acknowledged retries subs o ho
+  exact h
+
+/-- an acknowledged call's operation is in the log (and an operation the gate refuses never is) -/
+theorem acknowledged_is_logged (retries : Nat) (subs : List Submission) (s : Submission) (hs : s ∈ subs)
+    (hack : (answerOf Gen.gateShape Gen.redirectShape Gen.commitShape retries s).err = false) :
+    s.op ∈ gatedLog retries subs ∧ s.op.decodable = true := by
+  refine ⟨?_, (ack_implies_decodable retries _ _ hack).1⟩
+  induction subs with
+  | nil => cases hs
+  | cons t rest ih =>
+    unfold gatedLog logAfter
+    rcases List.mem_cons.1 hs with rfl | h
+    · have hc := (committed_iff_acknowledged retries s.op.decodable s.oracle).2 hack
+      have hc' : (answerOf Gen.gateShape Gen.redirectShape Gen.commitShape retries s).committed = true := hc
+      rw [if_pos hc']
+      simp
+    · exact List.mem_append_right _ (ih h)
+
+theorem refused_never_logged (retries : Nat) (subs : List Submission) (o : Op) (hu : o.decodable = false) :
+    o ∉ gatedLog retries subs := by
+  intro ho
+  have := gated_log_decodable retries subs o ho
+  rw [hu] at this; cases this
+
+/-- the FSM-level histories of the harness: the entries the gate lets through -/
+theorem committedOf_decodable (submitted : List Op) : allDecodable (committedOf submitted) := by
+  intro o ho
+  unfold committedOf at ho
+  exact (List.mem_filter.1 ho).2
+
+/-- Histories that come through `commit` never poison an FSM: on every peer, after every schedule, the
+    FSM is consistent and `LogOp.Cid` holds no half-decoded pin. The branches of `stepR` behind
+    `inconsistent` / `poisoned` (entry refused by the FSM, crash of the next pin entry, unpin entry on a
+    poisoned FSM) are unreachable for them. -/
+theorem gated_never_inconsistent (retries : Nat) (subs : List Submission) (n : Nat) (evs : List (Nat × Ev)) :
+    ∀ r ∈ run (gatedLog retries subs) (initSys n) evs, r.inconsistent = false ∧ r.poisoned = false := by
+  intro r hr
+  have hinv := run_inv (x := false) (gated_log_decodable retries subs) evs (sinv_init false _ n) (by intro h; cases h) r hr
+  exact ⟨hinv.incons, hinv.poison⟩
+
+/-- … and every entry handed to a peer's FSM is applied by it: an acknowledged operation is applied on
+    every replica whose Raft delivers it (`decode_total` holds on the committed sequence) -/
+theorem gated_apply_never_refused (retries : Nat) (subs : List Submission) (n : Nat) (evs : List (Nat × Ev)) :
+    ∀ r ∈ run (gatedLog retries subs) (initSys n) evs, ∀ src,
+      ((stepR (gatedLog retries subs) r src .apply).2.res = .ok ∨ (stepR (gatedLog retries subs) r src .apply).2.res = .noop) ∧
+      (r.up = true → r.applied < (gatedLog retries subs).length → (stepR (gatedLog retries subs) r src .apply).2.res = .ok) := by
+  intro r hr src
+  have hdec := gated_log_decodable retries subs
+  have hinv := run_inv (x := false) hdec evs (sinv_init false _ n) (by intro h; cases h) r hr
+  refine ⟨apply_res hdec hinv.poison src, ?_⟩
+  intro hup hlt
+  unfold stepR
+  dsimp only
+  simp only [hup, Bool.not_true, Bool.false_eq_true, if_false]
+  have hop : (gatedLog retries subs)[r.applied]? = some (gatedLog retries subs)[r.applied] := List.getElem?_eq_getElem hlt
+  rw [hop]
+  have hd := hdec _ (List.getElem_mem hlt)
+  simp [hd, hinv.poison]
+
+/-- `future_inv` at full strength for histories that come through the commit path -/
+theorem future_inv (retries : Nat) (subs : List Submission) (n : Nat) (evs : List (Nat × Ev)) :
+    ∀ r ∈ run (gatedLog retries subs) (initSys n) evs, r.up = true →
+      ∃ m, r.view = .pins m ∧
+        ∀ c, ∃ j, r.applied ≤ j ∧ j ≤ (gatedLog retries subs).length ∧
+          m.get c = (replay ((gatedLog retries subs).take j)).get c :=
+  future_inv_partial _ n evs (gated_log_decodable retries subs)
+
+/-- `caught_up_exact` at full strength: every submission history, every schedule -/
+theorem caught_up_exact (retries : Nat) (subs : List Submission) (n : Nat) (evs : List (Nat × Ev)) :
+    ∀ r ∈ run (gatedLog retries subs) (initSys n) evs, r.up = true →
+      r.applied = (gatedLog retries subs).length → r.view = .pins (replay (gatedLog retries subs)) :=
+  caught_up_exact_partial _ n evs (gated_log_decodable retries subs)
+
+/-- An acknowledged operation is part of the committed sequence, that sequence can be applied by every
+    replica, and whatever happens (any schedule of applies, snapshots, installs, shutdowns, kills, restarts
+    on any peers) every peer can be brought to hold exactly the result of the whole sequence. -/
+theorem ack_applied_everywhere (retries : Nat) (subs : List Submission) (s : Submission) (hs : s ∈ subs)
+    (hack : (answerOf Gen.gateShape Gen.redirectShape Gen.commitShape retries s).err = false)
+    (n : Nat) (evs : List (Nat × Ev)) (j : Nat) (hj : j < n) :
+    s.op ∈ gatedLog retries subs ∧
+    ∃ r', (run (gatedLog retries subs) (run (gatedLog retries subs) (initSys n) evs) (recover (gatedLog retries subs) j))[j]? = some r' ∧
+      r'.up = true ∧ r'.applied = (gatedLog retries subs).length ∧ r'.view = .pins (replay (gatedLog retries subs)) :=
+  ⟨(acknowledged_is_logged retries subs s hs hack).1,
+   catch_up_reachable_partial _ n evs (gated_log_decodable retries subs) j hj⟩
+
+/-- the tracker hand-off order for histories that come through the commit path -/
+theorem handoff_order_gated (retries : Nat) (subs : List Submission) (n : Nat) (evs₁ evs₂ : List (Nat × Ev)) (i : Nat)
+    (hq : noReset i evs₂ = true) (r : Replica) (hr : (run (gatedLog retries subs) (initSys n) evs₁)[i]? = some r) :
+    ∃ r', (run (gatedLog retries subs) (initSys n) (evs₁ ++ evs₂))[i]? = some r' ∧ r.applied ≤ r'.applied ∧
+      callsAt (gatedLog retries subs) i (run (gatedLog retries subs) (initSys n) evs₁) evs₂ =
+        sentFor (gatedLog retries subs) r.applied (r'.applied - r.applied) := by
+  obtain ⟨r', h1, h2, h3, _⟩ := handoff_order _ n evs₁ evs₂ i (gated_log_decodable retries subs) hq r hr
+  exact ⟨r', h1, h2, h3⟩
+
+/-! #### leadership changes
+
+Who leads is not part of the replica model: the committed sequence is one list whichever leader appended
+which entry (Raft's log matching and leader completeness: trusted), and a peer that leads is a peer like
+any other for `step`. A leader that is shut down between commits is the event `shutdown` on that peer, a
+leader that dies is `kill`; the new leader "continuing" is later entries of the same sequence being applied
+(`apply`) on the survivors; the old leader coming back is `restart` (its newest snapshot, then the log)
+possibly with `install` of the new leader's snapshot. All theorems above quantify over EVERY such schedule
+(`future_inv`, `caught_up_exact`, `ack_applied_everywhere`, `ack_visible_durable_partial` with arbitrary
+`evs₂`, `handoff_order` with arbitrary `evs₁`), so they cover these histories; no new event kind is needed.
+The thorough `net` suite drives them on three real nodes. One such schedule, concretely: -/
+
+/-- peer 0 leads and applies two entries, is shut down; peer 1 leads, applies them and two more, snapshots;
+    peer 0 comes back (own snapshot), gets peer 1's snapshot installed, applies the rest; peer 2 was behind
+    all along and catches up from the log: every observation satisfies every clause -/
+example : holds (gatedLog 1 [⟨.pin (pinCid 1), [.selfApplyOk]⟩, ⟨.pin (pinCid 2), [.selfApplyOk]⟩,
+                              ⟨.pin originsPin, [.selfApplyOk]⟩,
+                              ⟨.unpin (pinCid 1), [.fwdErr, .fwdOk]⟩, ⟨.pin (pinCid 3), [.selfApplyOk]⟩,
+                              ⟨.unpin (pinCid 2), [.fwdOk]⟩])
+    (modelTrace (gatedLog 1 [⟨.pin (pinCid 1), [.selfApplyOk]⟩, ⟨.pin (pinCid 2), [.selfApplyOk]⟩,
+                              ⟨.pin originsPin, [.selfApplyOk]⟩,
+                              ⟨.unpin (pinCid 1), [.fwdErr, .fwdOk]⟩, ⟨.pin (pinCid 3), [.selfApplyOk]⟩,
+                              ⟨.unpin (pinCid 2), [.fwdOk]⟩]) (initSys 3)
+      [(0, .apply), (0, .apply), (1, .apply), (0, .shutdown), (0, .offline), (1, .apply), (1, .apply), (1, .apply),
+       (1, .snapBegin), (1, .snapPersist), (1, .apply), (0, .restart), (0, .install 1), (0, .apply),
+       (2, .apply), (2, .apply), (2, .apply), (2, .apply), (2, .apply), (1, .kill), (1, .restart), (1, .apply)]) = true := by
+  decide
+
+/-- a history with a refused operation in the middle: it is not in the log, its neighbours are -/
+example : gatedLog 1 [⟨.pin (pinCid 1), [.selfApplyOk]⟩, ⟨.pin originsPin, [.selfApplyOk]⟩,
+                      ⟨.unpin (pinCid undefCid), [.fwdOk]⟩, ⟨.unpin (pinCid 1), [.fwdErr, .fwdOk]⟩,
+                      ⟨.pin (pinCid 2), [.fwdErr, .fwdErr]⟩] =
+    [.pin (pinCid 1), .unpin (pinCid 1)] := by decide
+
+end CV.C01
